@@ -4,18 +4,20 @@ package noise
 
 // C02 part "noise": fidelity of the Noise secure channel (rw.go) for every point of a grid
 //   payload length x write split x read-buffer policy x short-read pattern of the connection underneath
-//   x direction x (read after every write | after the last write),
-// each point on a fresh pair of real transports after a real XX handshake over an in-memory connection,
-// inside a testing/synctest bubble. The same driver runs the stack pnet(PSK) -> Noise.
+//   x direction x (read after every write | after the last write) [x reader writes back meanwhile],
+// over real transports after a real XX handshake on an in-memory connection, inside a testing/synctest
+// bubble. One fresh session per (length, split, short reads, direction, mode); the read policies follow one
+// another on it, each with a payload of its own, so nonces and the queued remainder carry over from one
+// transfer to the next as on a long-lived connection. The same driver runs the stack pnet(PSK) -> Noise.
 //
 // Oracle = the statement: what Read has returned so far is exactly the prefix of what Write has accepted so
 // far, after every single Read; Write returns len(p) or an error (an error on a healthy connection is
 // reported too, since those bytes can never arrive).
 //
-// White box: before/after every Read the harness looks at qbuf/qseek to see which of the reader's code
-// paths was taken and compares that with the path it computed from (pending frame size, queued remainder,
-// len(buf)); every (path -> next path) pair of the reader's automaton must have occurred (else the run is
-// reported as not exhaustive - never as a violation).
+// White box: before every Read the harness computes, from (queued remainder, plaintext size of the pending
+// frame, len(buf)) alone, which of the reader's code paths the Read takes and what it returns; afterwards it
+// classifies the path actually taken from qbuf/qseek and compares. Every (path -> next path) pair of the
+// reader's automaton must have occurred (else the run is reported as not exhaustive - never as a violation).
 
 import (
 	"context"
@@ -429,6 +431,7 @@ func TestVerifC02Noise(t *testing.T) {
 	for _, p := range c02Policies(-1, thorough) {
 		pn = append(pn, p.Name)
 	}
+	pn = append(pn, "r=L+1")
 	r.Bounds["read_policies(pending = queued remainder, else plaintext size of the next frame)"] = pn
 
 	payloads := map[string][]byte{}
